@@ -91,6 +91,8 @@ def gen_world(rng, cfg):
                     pat = rng.pick(sorted(scn['patterns'])) if (scn['patterns'] and rng.chance(0.5)) else new_pattern()
                 cat = rng.pick([None, 'dom', 'ind', 'A'])
                 dem.append([base, pat, cat])
+            if len(dem) >= 2 and rng.chance(c.get('p_first_zero', 0.08)):
+                dem[0][0] = 0.0        # a junction whose first demand entry is zero and whose later entries are not
         juncs.append({'id': jid, 'type': 'J', 'elev': rng.uni(0.0, 25.0, 2), 'demands': dem})
     total_demand = sum(d[0] for j in juncs for d in j['demands']) * max(1.0, opt['multiplier']) * 1.3 + 1e-3
 
